@@ -163,7 +163,7 @@ func buildClientRequest(cfg *pipeCfg, msgs []wireMsg, body *fakeBody) *http.Requ
 				h.Set("Connect-Content-Encoding", "gzip")
 			}
 		}
-		req.Proto, req.ProtoMajor, req.ProtoMinor = "HTTP/2", 2, 0
+		req.Proto, req.ProtoMajor, req.ProtoMinor = "HTTP/2.0", 2, 0 // (what net/http's HTTP/2 server reports)
 	case cfConnectUnary:
 		h.Set("Content-Type", "application/"+cfg.clientCodec)
 		h.Set("Connect-Protocol-Version", "1")
